@@ -551,6 +551,64 @@ fn mode_stress(eng: &Engine, report: &mut Report) {
         }
     }
 
+    // ---- node creation in thread-local destructors (two more generators)
+    {
+        let coincidence_used = if matches!(model, SourceModel::PerThreadSeeded) { 2 } else { 0 };
+        let lo = next_generator + short_lived_total + coincidence_used;
+        match teardown_phase(2, 50, 40) {
+            None => report.inconclusive("teardown phase: a thread failed or its destructor did not report"),
+            Some(streams) => {
+                report.count("teardown_threads", streams.len() as u64);
+                match model {
+                    SourceModel::PerThread => {
+                        for (tid, s) in streams.iter().enumerate() {
+                            if s.len() <= s0.len() && s[..] != s0[..s.len()] {
+                                let pos = (0..s.len()).find(|&i| s[i] != s0[i]).unwrap_or(0);
+                                report.violation(
+                                    "priority_stream_not_sequential:thread_teardown",
+                                    Json::obj().set("what", "a thread's priority stream, including the nodes it creates in a thread-local destructor, is not its sequential stream").set("thread", tid).set("first_differing_draw", pos).set("draws_before_teardown", 50),
+                                    vec!["--mode".into(), "stress".into()],
+                                );
+                            }
+                        }
+                    }
+                    SourceModel::PerThreadSeeded => {
+                        if lo + 2 > ref_threads + 1 {
+                            report.inconclusive("reference file holds too few sequential streams for the teardown phase");
+                        } else {
+                            let mut used = [false; 2];
+                            for (tid, s) in streams.iter().enumerate() {
+                                let hit = (0..2).find(|&j| !used[j] && s.len() <= ref_len && stream(lo + j)[..s.len()] == s[..]);
+                                match hit {
+                                    Some(j) => used[j] = true,
+                                    None => {
+                                        let like = (0..2).find(|&j| !s.is_empty() && stream(lo + j)[0] == s[0]);
+                                        let pos = like.and_then(|j| (0..s.len()).find(|&i| stream(lo + j)[i] != s[i]));
+                                        report.violation(
+                                            "priority_stream_not_sequential:thread_teardown",
+                                            Json::obj()
+                                                .set("what", "a thread's priority stream, including the nodes it creates in a thread-local destructor, is not the sequential stream of one generator")
+                                                .set("thread", tid)
+                                                .set("first_differing_draw", pos.map(|x| x as u64))
+                                                .set("draws_before_teardown", 50),
+                                            vec!["--mode".into(), "stress".into()],
+                                        );
+                                    }
+                                }
+                            }
+                        }
+                    }
+                    _ => {
+                        report.extra("teardown_subcheck", "not applicable to this priority source model");
+                    }
+                }
+            }
+        }
+    }
+
+    // ---- very deep treaps on many threads at once
+    deep_phase(report, a.thorough());
+
     // ---- first use in fresh processes
     firstuse_phase(report, model, a.thorough());
 
@@ -872,6 +930,165 @@ fn coincidence_phase(report: &mut Report, sa: &[u32], sb: &[u32]) {
             return;
         }
     }
+}
+
+// ------------------------------------------------------------------------------------------------
+// node creation during thread teardown: a destructor of the caller's own thread-local (registered before the thread's
+// first node creation, so it runs after everything registered later) creates nodes. They are draws of that thread like
+// any other: the thread's whole stream, teardown included, must be one sequential stream.
+
+struct Teardown {
+    more: usize,
+    sink: Arc<std::sync::Mutex<Vec<(u64, Vec<u32>)>>>,
+    tid: u64,
+}
+impl Drop for Teardown {
+    fn drop(&mut self) {
+        let v = draw_main(self.more);
+        if let Ok(mut s) = self.sink.lock() {
+            s.push((self.tid, v));
+        }
+    }
+}
+thread_local! {
+    static TEARDOWN: std::cell::RefCell<Option<Teardown>> = std::cell::RefCell::new(None);
+}
+
+/// returns per thread the stream drawn while running followed by the stream drawn in the destructor
+fn teardown_phase(threads: usize, during: usize, after: usize) -> Option<Vec<Vec<u32>>> {
+    let sink: Arc<std::sync::Mutex<Vec<(u64, Vec<u32>)>>> = Arc::new(std::sync::Mutex::new(Vec::new()));
+    let barrier = Arc::new(Barrier::new(threads));
+    let hs: Vec<_> = (0..threads as u64)
+        .map(|tid| {
+            let sink = sink.clone();
+            let barrier = barrier.clone();
+            std::thread::spawn(move || {
+                // first touch of the caller's thread-local: before any node exists on this thread
+                TEARDOWN.with(|t| *t.borrow_mut() = None);
+                barrier.wait();
+                let v = draw_main(during);
+                TEARDOWN.with(|t| *t.borrow_mut() = Some(Teardown { more: after, sink, tid }));
+                (tid, v)
+            })
+        })
+        .collect();
+    let mut firsts: Vec<(u64, Vec<u32>)> = Vec::new();
+    for h in hs {
+        firsts.push(h.join().ok()?);
+    }
+    let late = sink.lock().ok()?.clone();
+    let mut out = Vec::new();
+    for (tid, mut v) in firsts {
+        let l = late.iter().find(|x| x.0 == tid)?;
+        v.extend(l.1.iter().cloned());
+        out.push(v);
+    }
+    Some(out)
+}
+
+// ------------------------------------------------------------------------------------------------
+// very deep treaps operated on by several threads at the same moment: each thread owns a path-shaped treap of
+// 90 000 nodes (priorities assigned through the public field) and splits / merges it over and over; the recursion of
+// every thread is tens of thousands of frames deep at once. Every thread must get what it gets alone.
+
+fn deep_chain(d: usize, top_is_larger: bool) -> Treap<KeyItem> {
+    let mut cur: Option<Box<TreapNode<KeyItem>>> = None;
+    for k in (0..d).rev() {
+        let mut node = Box::new(TreapNode::new(item(k as u64)));
+        node.priority = if top_is_larger { 4_000_000_000 - k as u32 } else { 1000 + k as u32 };
+        node.right = cur.take();
+        node.item.size = d - k;
+        cur = Some(node);
+    }
+    let mut t: Treap<KeyItem> = Treap::new();
+    t.root = cur;
+    t
+}
+
+fn deep_work(d: usize, rounds: usize, top_is_larger: bool) -> bool {
+    let mut t = deep_chain(d, top_is_larger);
+    let mut x = 12345u64;
+    for _ in 0..rounds {
+        let pos = d / 2 + (lcg(&mut x) % (d as u64 / 3)) as usize;
+        let (l, r) = t.split_at(pos);
+        if l.size() != pos || r.size() != d - pos {
+            std::mem::forget(l);
+            std::mem::forget(r);
+            return false;
+        }
+        t = Treap::merge(l, r);
+        if t.size() != d {
+            std::mem::forget(t);
+            return false;
+        }
+    }
+    let ok = {
+        let keys = t.collect();
+        keys.len() == d && keys.iter().enumerate().all(|(i, k)| k.key == i as u64)
+    };
+    // unlink iteratively: dropping a 90 000-deep chain recursively is the library's business only up to its own Drop,
+    // which is the derived recursive one - on this thread's large stack that is fine
+    drop(t);
+    ok
+}
+
+fn deep_phase(report: &mut Report, thorough: bool) {
+    let d = 90_000usize;
+    let threads = 12usize;
+    let rounds = if thorough { 400 } else { 120 };
+    let top_is_larger = {
+        let mut a = Treap::from_item(item(0));
+        let mut b = Treap::from_item(item(1));
+        a.root.as_mut().unwrap().priority = 1;
+        b.root.as_mut().unwrap().priority = 2;
+        let t = Treap::merge(a, b);
+        t.root.as_ref().map(|r| r.priority == 2).unwrap_or(true)
+    };
+    let spawn = |n: usize| -> Vec<std::thread::JoinHandle<bool>> {
+        let barrier = Arc::new(Barrier::new(n));
+        (0..n)
+            .map(|_| {
+                let b = barrier.clone();
+                std::thread::Builder::new()
+                    .stack_size(1 << 30)
+                    .spawn(move || {
+                        b.wait();
+                        deep_work(d, rounds, top_is_larger)
+                    })
+                    .expect("spawn")
+            })
+            .collect()
+    };
+    // alone first: if that already fails, depth as such is the problem (not this property's subject)
+    let alone = spawn(1).into_iter().map(|h| h.join()).collect::<Vec<_>>();
+    if !matches!(alone[0], Ok(true)) {
+        report.extra("deep_concurrent_subcheck", "not applicable: a single thread cannot run the deep workload alone");
+        return;
+    }
+    for (tid, r) in spawn(threads).into_iter().map(|h| h.join()).enumerate() {
+        report.inc("deep_concurrent_threads");
+        match r {
+            Ok(true) => {}
+            Ok(false) => {
+                report.violation(
+                    "treap_results_differ_under_concurrency:deep",
+                    Json::obj().set("what", "a thread splitting and merging its own 90 000-deep treap got sizes / contents that differ from the run alone").set("thread", tid).set("threads", threads),
+                    vec!["--mode".into(), "stress".into()],
+                );
+            }
+            Err(_) => {
+                report.violation(
+                    "worker_panicked:deep",
+                    Json::obj()
+                        .set("what", "a thread splitting and merging its own 90 000-deep treap panicked while other threads did the same; alone the same work succeeds")
+                        .set("thread", tid)
+                        .set("threads", threads),
+                    vec!["--mode".into(), "stress".into()],
+                );
+            }
+        }
+    }
+    report.count("deep_concurrent_rounds", (threads * rounds) as u64);
 }
 
 fn main() {
